@@ -24,6 +24,18 @@ def c16_case(draw, tier):
     g = pipegen.PipeGen(draw, cfg)
     var = g.source()
     var = g.extend(var, draw(st.integers(cfg.min_len, cfg.max_len)))
+    if kind in ("alias", "alias_twice") and draw(st.integers(0, 3)) == 0:
+        # the aliased table is a summary of its ancestors: a later self-join with an ancestor has columns on the left
+        # that the aliased side has dropped
+        try:
+            sv = g.v_summarize(var)
+        except (pipegen.OutOfDomain, pipegen.GenSkip):
+            sv = None
+        if sv is not None:
+            var = sv
+            if g.t(var).group:
+                var = g.emit({"out": g.new_var(), "verb": "ungroup", "in": var}) or var
+            g.classes.add("summarize_before_alias")
     t0 = g.t(var)
     if t0.group and len(t0.visible) >= 2 and draw(st.integers(0, 2)) == 0:
         # a deselected grouping column keeps grouping the table, also across the re-rooting
@@ -74,6 +86,8 @@ def c16_case(draw, tier):
     tr = g.t(r)
     # follow-up use
     follow = draw(st.sampled_from(["none", "verbs", "selfjoin", "summarize", "groupwin"]))
+    if "summarize_before_alias" in g.classes and draw(st.integers(0, 3)) > 0:
+        follow = "selfjoin"
     if "hidden_group_col" in g.classes and tr.group and draw(st.integers(0, 3)) > 0:
         follow = "groupwin"
     if follow == "groupwin" and not tr.group:
@@ -90,10 +104,19 @@ def c16_case(draw, tier):
             g.classes.add("window_after_reroot")
     elif follow == "verbs":
         final = g.extend(r, draw(st.integers(1, 2)))
-    elif follow == "selfjoin" and kind in ("alias", "alias_twice") and not tr.group and not t0.group:
-        lv, rvv = origin, r
-        names = [n for n in t0.names() if n in tr.vis() and t0.fam[t0.vis()[n]] == tr.fam[tr.vis()[n]]]
-        if names and t0.n * tr.n <= 4000:
+    elif follow == "selfjoin" and kind in ("alias", "alias_twice") and not tr.group:
+        # the left operand is the origin or one of its ancestors (e.g. the table before a summarize whose result was
+        # aliased): columns that the aliased side has dropped must keep denoting the left operand's data
+        from ..findings import chain
+
+        anc = [s_["out"] for s_ in chain({"steps": case["steps"]}, origin)
+               if s_["out"] in g.env.vars and not g.t(s_["out"]).group and "~" not in s_["out"]]
+        lv, rvv = (draw(st.sampled_from(anc)) if anc else origin), r
+        tl = g.t(lv)
+        names = [n for n in tl.names() if n in tr.vis() and tl.fam[tl.vis()[n]] == tr.fam[tr.vis()[n]]]
+        if lv != origin:
+            g.classes.add("selfjoin_ancestor")
+        if names and tl.n * tr.n <= 4000 and not tl.group:
             n = draw(st.sampled_from(names))
             on = [["fn", "eq", [["col", {"v": lv, "n": n}], ["col", {"v": rvv, "n": n}]], {}]]
             from ..findings import side_has_computed
